@@ -1,11 +1,18 @@
 (* C20 — displayed numbers are well-formed and accurate to 15 significant digits.
-   Property theorems only (see notes/C20.md).  Model: coq/DisplayNum.v. *)
-From Coq Require Import ZArith Bool String Ascii List.
-Require Import Blots.Num Blots.Outcome Blots.DisplayNum Blots.proofs.DisplayNumGroup.
+   Property theorems only: each is closed by [exact lemma], pinned by [Check], followed by
+   [Print Assumptions].  Model: coq/DisplayNum.v (format_display_number and helpers transcribed
+   from blots-core/src/values.rs; library calls log10, powi, {:.N}, {:.14e}, parse::<f64> are
+   universally quantified oracles).  Grammar and denotation: coq/proofs/DisplayNumSpec.v.
+   See notes/C20.md for what is proved, partial and refuted. *)
+From Coq Require Import ZArith Bool String Ascii List QArith Qabs Qpower Floats.SpecFloat.
+Require Import Blots.Num Blots.Outcome Blots.DisplayNum.
+Require Import Blots.proofs.DisplayNumGroup Blots.proofs.DisplayNumSpec Blots.proofs.DisplayNumText
+               Blots.proofs.DisplayNumInt Blots.proofs.DisplayNum.
 Import ListNotations.
 Open Scope char_scope.
+Open Scope Z_scope.
 
-(* the separator loop yields d{1,3}(,ddd)* on every non-empty digit string *)
+(* ---- the separator loop yields d{1,3}(,ddd)* on every non-empty digit string ---- *)
 Theorem C20_group3_wellformed : forall s,
   s <> [] -> forallb is_digit s = true -> wf_grouped_int (group3 s) = true.
 Proof. exact group3_wellformed. Qed.
@@ -13,8 +20,260 @@ Check C20_group3_wellformed : forall s,
   s <> [] -> forallb is_digit s = true -> wf_grouped_int (group3 s) = true.
 Print Assumptions C20_group3_wellformed.
 
-(* removing the separators gives the digits back *)
+(* ---- removing the separators gives the digits back ---- *)
 Theorem C20_ungroup_group3 : forall s, contains "," s = false -> ungroup (group3 s) = s.
 Proof. exact ungroup_group3. Qed.
 Check C20_ungroup_group3 : forall s, contains "," s = false -> ungroup (group3 s) = s.
 Print Assumptions C20_ungroup_group3.
+
+(* ---- trimming trailing zeros (and a bare '.') keeps the shape -?d+(.d+)? and the value ---- *)
+Theorem C20_trim_zeros_preserves_value : forall s,
+  plain_shape s = true ->
+  plain_shape (trim_fraction s) = true /\ (denote_plain (trim_fraction s) == denote_plain s)%Q.
+Proof. exact trim_fraction_preserves_value. Qed.
+Check C20_trim_zeros_preserves_value : forall s,
+  plain_shape s = true ->
+  plain_shape (trim_fraction s) = true /\ (denote_plain (trim_fraction s) == denote_plain s)%Q.
+Print Assumptions C20_trim_zeros_preserves_value.
+
+(* ---- separator insertion gives a well-formed standard numeral of the same value ---- *)
+Theorem C20_separators_preserve_value : forall s,
+  plain_shape s = true ->
+  wf_numeral (add_thousand_separators s) = true /\
+  (denote (add_thousand_separators s) == denote_plain s)%Q.
+Proof. exact separators_preserve_value. Qed.
+Check C20_separators_preserve_value : forall s,
+  plain_shape s = true ->
+  wf_numeral (add_thousand_separators s) = true /\
+  (denote (add_thousand_separators s) == denote_plain s)%Q.
+Print Assumptions C20_separators_preserve_value.
+
+(* ---- NaN, the infinities and the zeros are shown by name, for every oracle ---- *)
+Theorem C20_names : forall log10 powi fmt_prec fmt_exp14 parse_f64 fx,
+  let fdn := format_display_number log10 powi fmt_prec fmt_exp14 parse_f64 fx in
+  fdn S754_nan = Ok (tx "NaN") /\
+  fdn (S754_infinity false) = Ok (tx "Infinity") /\
+  fdn (S754_infinity true) = Ok (tx "-Infinity") /\
+  fdn (S754_zero false) = Ok (tx "0") /\
+  fdn (S754_zero true) = Ok (tx "-0").
+Proof. exact display_names. Qed.
+Check C20_names : forall log10 powi fmt_prec fmt_exp14 parse_f64 fx,
+  let fdn := format_display_number log10 powi fmt_prec fmt_exp14 parse_f64 fx in
+  fdn S754_nan = Ok (tx "NaN") /\
+  fdn (S754_infinity false) = Ok (tx "Infinity") /\
+  fdn (S754_infinity true) = Ok (tx "-Infinity") /\
+  fdn (S754_zero false) = Ok (tx "0") /\
+  fdn (S754_zero true) = Ok (tx "-0").
+Print Assumptions C20_names.
+
+(* ---- WELL-FORMEDNESS: for ALL doubles x, both variants of the code (fx), and ALL library
+        oracles whose output on finite arguments has the documented digit shape, the display
+        text matches the numeral grammar — unless the rounding step itself produced a
+        non-finite number from the oracle values (excluded for real powi/log10 by the DISPLAY
+        correspondence, not by proof; see notes/C20.md). ---- *)
+Theorem C20_wellformed : forall log10 powi fmt_prec fmt_exp14 parse_f64 fx,
+  (forall x n, is_finite x = true -> 0 <= n -> prec_shape n (fmt_prec x n) = true) ->
+  (forall x, is_finite x = true -> exp_shape (fmt_exp14 x) = true) ->
+  (forall s m, mant_shape s = true -> parse_f64 s = Some m -> is_finite m = true) ->
+  forall x t,
+  format_display_number log10 powi fmt_prec fmt_exp14 parse_f64 fx x = Ok t ->
+  wf_numeral t = true \/
+  (std_nonint_path x = true /\
+   exists r, round_to_significant_figures log10 powi fx x = Ok r /\ is_finite r = false).
+Proof. exact display_wellformed. Qed.
+Check C20_wellformed : forall log10 powi fmt_prec fmt_exp14 parse_f64 fx,
+  (forall x n, is_finite x = true -> 0 <= n -> prec_shape n (fmt_prec x n) = true) ->
+  (forall x, is_finite x = true -> exp_shape (fmt_exp14 x) = true) ->
+  (forall s m, mant_shape s = true -> parse_f64 s = Some m -> is_finite m = true) ->
+  forall x t,
+  format_display_number log10 powi fmt_prec fmt_exp14 parse_f64 fx x = Ok t ->
+  wf_numeral t = true \/
+  (std_nonint_path x = true /\
+   exists r, round_to_significant_figures log10 powi fx x = Ok r /\ is_finite r = false).
+Print Assumptions C20_wellformed.
+
+(* ---- the model never yields an error value: Ok or (overflow) Panic ---- *)
+Theorem C20_ok_or_panic : forall log10 powi fmt_prec fmt_exp14 parse_f64 fx x,
+  (exists t, format_display_number log10 powi fmt_prec fmt_exp14 parse_f64 fx x = Ok t) \/
+  format_display_number log10 powi fmt_prec fmt_exp14 parse_f64 fx x = Panic.
+Proof. exact display_ok_or_panic. Qed.
+Check C20_ok_or_panic : forall log10 powi fmt_prec fmt_exp14 parse_f64 fx x,
+  (exists t, format_display_number log10 powi fmt_prec fmt_exp14 parse_f64 fx x = Ok t) \/
+  format_display_number log10 powi fmt_prec fmt_exp14 parse_f64 fx x = Panic.
+Print Assumptions C20_ok_or_panic.
+
+(* ---- no i32/i64 overflow panic for any valid double when floor(log10 a) as i32 is within
+        +-2000 (the real function's range on finite doubles is [-324, 308]) ---- *)
+Theorem C20_no_panic : forall log10 powi fmt_prec fmt_exp14 parse_f64 fx,
+  (forall a, Z.abs (as_i32 (nfloor (log10 a))) <= 2000) ->
+  forall x, valid_binary prec emax x = true ->
+  exists t, format_display_number log10 powi fmt_prec fmt_exp14 parse_f64 fx x = Ok t.
+Proof. exact display_no_panic. Qed.
+Check C20_no_panic : forall log10 powi fmt_prec fmt_exp14 parse_f64 fx,
+  (forall a, Z.abs (as_i32 (nfloor (log10 a))) <= 2000) ->
+  forall x, valid_binary prec emax x = true ->
+  exists t, format_display_number log10 powi fmt_prec fmt_exp14 parse_f64 fx x = Ok t.
+Print Assumptions C20_no_panic.
+
+(* ---- INTEGERS: every integral double in the standard range (hence below 2^53) is shown
+        exactly, as a well-formed grouped numeral; no oracle is consulted ---- *)
+Theorem C20_integers_exact : forall log10 powi fmt_prec fmt_exp14 parse_f64 fx s m e,
+  let x := S754_finite s m e in
+  valid_binary prec emax x = true ->
+  scientific_range (nabs x) = false ->
+  nfract_is_zero x = true ->
+  exists t, format_display_number log10 powi fmt_prec fmt_exp14 parse_f64 fx x = Ok t /\
+            wf_numeral t = true /\ (denote t == num_to_Q x)%Q.
+Proof. exact display_integers_exact. Qed.
+Check C20_integers_exact : forall log10 powi fmt_prec fmt_exp14 parse_f64 fx s m e,
+  let x := S754_finite s m e in
+  valid_binary prec emax x = true ->
+  scientific_range (nabs x) = false ->
+  nfract_is_zero x = true ->
+  exists t, format_display_number log10 powi fmt_prec fmt_exp14 parse_f64 fx x = Ok t /\
+            wf_numeral t = true /\ (denote t == num_to_Q x)%Q.
+Print Assumptions C20_integers_exact.
+
+(* ---- POST-PROCESSING IS VALUE-EXACT, standard notation: the text denotes exactly the
+        decimal that format!("{:.dp$}", rounded) printed ---- *)
+Theorem C20_post_processing_exact_standard : forall log10 powi fmt_prec fmt_exp14 parse_f64 fx,
+  (forall x n, is_finite x = true -> 0 <= n -> prec_shape n (fmt_prec x n) = true) ->
+  forall x t,
+  std_nonint_path x = true ->
+  format_display_number log10 powi fmt_prec fmt_exp14 parse_f64 fx x = Ok t ->
+  exists r dp, round_to_significant_figures log10 powi fx x = Ok r /\
+    decimal_places_of log10 powi fx r = Ok dp /\ 0 <= dp /\
+    (is_finite r = true ->
+     wf_numeral t = true /\ (denote t == denote_plain (fmt_prec r dp))%Q).
+Proof. exact display_standard_value. Qed.
+Check C20_post_processing_exact_standard : forall log10 powi fmt_prec fmt_exp14 parse_f64 fx,
+  (forall x n, is_finite x = true -> 0 <= n -> prec_shape n (fmt_prec x n) = true) ->
+  forall x t,
+  std_nonint_path x = true ->
+  format_display_number log10 powi fmt_prec fmt_exp14 parse_f64 fx x = Ok t ->
+  exists r dp, round_to_significant_figures log10 powi fx x = Ok r /\
+    decimal_places_of log10 powi fx r = Ok dp /\ 0 <= dp /\
+    (is_finite r = true ->
+     wf_numeral t = true /\ (denote t == denote_plain (fmt_prec r dp))%Q).
+Print Assumptions C20_post_processing_exact_standard.
+
+(* ---- POST-PROCESSING IS VALUE-EXACT, scientific notation: the text denotes exactly
+        (what {:.14} printed for the re-parsed mantissa) * 10^(re-parsed exponent) ---- *)
+Theorem C20_post_processing_exact_scientific : forall log10 powi fmt_prec fmt_exp14 parse_f64 fx,
+  (forall x n, is_finite x = true -> 0 <= n -> prec_shape n (fmt_prec x n) = true) ->
+  (forall x, is_finite x = true -> exp_shape (fmt_exp14 x) = true) ->
+  (forall s m, mant_shape s = true -> parse_f64 s = Some m -> is_finite m = true) ->
+  forall x,
+  is_finite x = true -> neqb x nzero = false -> scientific_range (nabs x) = true ->
+  exists ms es t,
+    split_once "e" (fmt_exp14 x) = Some (ms, es) /\
+    format_display_number log10 powi fmt_prec fmt_exp14 parse_f64 fx x = Ok t /\
+    wf_numeral t = true /\
+    (denote t == denote_plain (fmt_prec (sci_mantissa parse_f64 x ms) 14%Z) *
+                 Qpower (10 # 1) (sci_exponent es))%Q.
+Proof. exact display_scientific_value. Qed.
+Check C20_post_processing_exact_scientific : forall log10 powi fmt_prec fmt_exp14 parse_f64 fx,
+  (forall x n, is_finite x = true -> 0 <= n -> prec_shape n (fmt_prec x n) = true) ->
+  (forall x, is_finite x = true -> exp_shape (fmt_exp14 x) = true) ->
+  (forall s m, mant_shape s = true -> parse_f64 s = Some m -> is_finite m = true) ->
+  forall x,
+  is_finite x = true -> neqb x nzero = false -> scientific_range (nabs x) = true ->
+  exists ms es t,
+    split_once "e" (fmt_exp14 x) = Some (ms, es) /\
+    format_display_number log10 powi fmt_prec fmt_exp14 parse_f64 fx x = Ok t /\
+    wf_numeral t = true /\
+    (denote t == denote_plain (fmt_prec (sci_mantissa parse_f64 x ms) 14%Z) *
+                 Qpower (10 # 1) (sci_exponent es))%Q.
+Print Assumptions C20_post_processing_exact_scientific.
+
+(* ====================================================================================
+   The oracle hypotheses are satisfiable (a trivial library), and hold for the executable
+   library models at sample points (the ORACLE streams test them against Rust std).
+   ==================================================================================== *)
+Example C20_hyp_prec_satisfiable : forall x n,
+  is_finite x = true -> 0 <= n -> prec_shape n (toy_prec x n) = true.
+Proof. exact toy_prec_shape. Qed.
+Example C20_hyp_exp_satisfiable : forall x, is_finite x = true -> exp_shape (toy_exp x) = true.
+Proof. exact toy_exp_shape. Qed.
+Example C20_hyp_parse_satisfiable : forall s m,
+  mant_shape s = true -> toy_parse s = Some m -> is_finite m = true.
+Proof. exact toy_parse_finite. Qed.
+(* the executable models at sample points: 1234.5, -0.000123..., 1e21 *)
+Example C20_hyp_exec_samples :
+  prec_shape 11 (fmt_prec_exec (num_of_bits 0x40934a0000000000) 11) = true /\
+  prec_shape 0 (fmt_prec_exec (num_of_bits 0x42d6bcc41e900000) 0) = true /\
+  exp_shape (fmt_exp14_exec (num_of_bits 0xbf202e85be180b74)) = true /\
+  exp_shape (fmt_exp14_exec (num_of_bits 0x444b1ae4d6e2ef50)) = true /\
+  mant_shape (tx "-1.23400000000000") = true.
+Proof. vm_compute. repeat split. Qed.
+(* hypotheses of C20_integers_exact: 1234567 *)
+Example C20_hyp_integer_sample :
+  let x := num_of_bits 0x4132d68700000000 in
+  valid_binary prec emax x = true /\ scientific_range (nabs x) = false /\ nfract_is_zero x = true /\
+  display_exec false [] x = Ok (tx "1,234,567").
+Proof. vm_compute. repeat split. Qed.
+
+(* ====================================================================================
+   ACCURACY to 15 significant digits — partial (see notes/C20.md).
+   ==================================================================================== *)
+(* 10^k <= |x| < 10^(k+1) *)
+Definition in_decade (x : num) (k : Z) : Prop :=
+  (Qpower (10 # 1) k <= Qabs (num_to_Q x))%Q /\ (Qabs (num_to_Q x) < Qpower (10 # 1) (k + 1)%Z)%Q.
+(* f64::log10 is off by less than one: floor(log10 a) is the decimal exponent or one more *)
+Definition log10_sane (log10 : num -> num) : Prop :=
+  forall a k, valid_binary prec emax a = true -> in_decade a k ->
+              k <= as_i32 (nfloor (log10 a)) <= k + 1.
+(* the text is within one unit of the 15th significant digit of x *)
+Definition accurate15 (x : num) (t : text) : Prop :=
+  forall k, in_decade x k -> (Qabs (denote t - num_to_Q x) < Qpower (10 # 1) (k - 14)%Z)%Q.
+
+(* The statement of the accuracy clause for the code as repaired by
+   fixes/C20-decimal-exponent.diff, with the exact library models.  NOT PROVED (it needs the
+   rounding-error analysis of value*scale, round, /scale over all binades); decided on the
+   implementation by the exact-rational search of checks/c20.py. *)
+Definition C20_accuracy_full : Prop :=
+  forall log10, log10_sane log10 ->
+  forall x t, valid_binary prec emax x = true -> is_finite x = true -> neqb x nzero = false ->
+    format_display_number log10 powi_exec fmt_prec_exec fmt_exp14_exec parse_f64_exec true x = Ok t ->
+    accurate15 x t.
+
+(* Proved part of the accuracy clause: integers in the standard range have error 0 *)
+Theorem C20_accuracy_partial_integers : forall log10 powi fmt_prec fmt_exp14 parse_f64 fx s m e,
+  let x := S754_finite s m e in
+  valid_binary prec emax x = true ->
+  scientific_range (nabs x) = false ->
+  nfract_is_zero x = true ->
+  exists t, format_display_number log10 powi fmt_prec fmt_exp14 parse_f64 fx x = Ok t /\
+            (Qabs (denote t - num_to_Q x) == 0)%Q.
+Proof. exact display_integers_error_zero. Qed.
+Check C20_accuracy_partial_integers : forall log10 powi fmt_prec fmt_exp14 parse_f64 fx s m e,
+  let x := S754_finite s m e in
+  valid_binary prec emax x = true ->
+  scientific_range (nabs x) = false ->
+  nfract_is_zero x = true ->
+  exists t, format_display_number log10 powi fmt_prec fmt_exp14 parse_f64 fx x = Ok t /\
+            (Qabs (denote t - num_to_Q x) == 0)%Q.
+Print Assumptions C20_accuracy_partial_integers.
+
+(* REFUTED on the code as it is (fx = false), known finding C20-F1:
+   x = 999999999999998.875 (bits 430c6bf52633fff7).  f64::log10 returns 15.0 both on x and on
+   the rounded value 1e15 (these two table entries are re-validated against the real function
+   by the check on every run; 15.0 is also the correctly rounded value of log10 x, so no
+   better libm helps).  The display is "1,000,000,000,000,000": 1.125 away from x, while one
+   unit of the 15th significant digit of x is 1. *)
+Definition C20_F1_witness : num := num_of_bits 0x430c6bf52633fff7.
+Definition C20_F1_log10_table : list (Z * Z) :=
+  [(0x430c6bf52633fff7, 0x402e000000000000); (0x430c6bf526340000, 0x402e000000000000)].
+Lemma C20_accuracy_refuted :
+  display_exec false C20_F1_log10_table C20_F1_witness = Ok (tx "1,000,000,000,000,000") /\
+  Qle_bool (Qpower (10 # 1) 14) (Qabs (num_to_Q C20_F1_witness)) = true /\
+  Qle_bool (Qpower (10 # 1) 15) (Qabs (num_to_Q C20_F1_witness)) = false /\
+  Qle_bool (Qpower (10 # 1) (14 - 14))
+           (Qabs (denote (tx "1,000,000,000,000,000") - num_to_Q C20_F1_witness)) = true.
+Proof. vm_compute. repeat split. Qed.
+(* with the repair the same input, same log10 values, displays within 0.125 *)
+Lemma C20_F1_repaired :
+  display_exec true C20_F1_log10_table C20_F1_witness = Ok (tx "999,999,999,999,999") /\
+  Qle_bool (Qpower (10 # 1) (14 - 14))
+           (Qabs (denote (tx "999,999,999,999,999") - num_to_Q C20_F1_witness)) = false.
+Proof. vm_compute. repeat split. Qed.
